@@ -2,7 +2,7 @@
    classes satisfy cc_ok; refutations and necessity witnesses by computation. *)
 From Coq Require Import ZifyBool.
 From Boltons Require Import Lib.Prelude Lib.C16_Text Spec.C16_Spec Model.C16_Model Gen.C16_Gen
-  Spec.C16_Re Proofs.C16_Text Proofs.C16_Regex Proofs.C16_Parse Proofs.C16_Fold Proofs.C16_Format Proofs.C16_ReEquiv.
+  Spec.C16_Re Proofs.C16_Text Proofs.C16_Regex Proofs.C16_Parse Proofs.C16_Fold Proofs.C16_FoldM Proofs.C16_Format Proofs.C16_ReEquiv.
 Open Scope N_scope.
 
 (* ---- CPython's classes are lawful -------------------------------------------------------- *)
@@ -108,6 +108,20 @@ Section Main.
     wf C T = true -> src_consistent (t_frames T) = true -> parse_print (std_text T) = Ok (std_text T).
   Proof.
     intros H Hc. unfold parse_print. rewrite (parse_std C OK T H Hc). apply to_string_std. exact (wf_funcs C T H).
+  Qed.
+
+  (* the text exactly as Python >= 3.11 prints it: folded entries and marker lines together *)
+  Theorem parse_real_text T ms :
+    wf C T = true -> markers_ok ms = true -> length ms = length (t_frames T) ->
+    src_consistent (t_frames T) = true -> from_string C (real_text T ms) = Ok T.
+  Proof. apply (parse_real C OK). Qed.
+
+  Theorem real_roundtrip T ms :
+    wf C T = true -> markers_ok ms = true -> length ms = length (t_frames T) ->
+    src_consistent (t_frames T) = true -> parse_print (real_text T ms) = Ok (std_text T).
+  Proof.
+    intros H Hm Hl Hc. unfold parse_print. rewrite (parse_real C OK T ms H Hm Hl Hc).
+    apply to_string_std. exact (wf_funcs C T H).
   Qed.
 
   (* marker lines are dropped, nothing else *)
